@@ -498,6 +498,8 @@ def array_token(P, R, rule):
                         if isinstance(arg, ast.Attribute) and isinstance(arg.value, ast.Name) and arg.value.id == a and arg.attr in ('data', '_data'):
                             if norm(x.func).split('.')[-1] in ('normalize_token', 'tokenize'):
                                 raw_arrow = True      # (S14) dask tokenises a pyarrow array by its BUFFERS: the slice offset and length are not part of the token
+                            elif norm(x.func) in ('len', 'type', 'isinstance', 'id', 'getattr', 'hasattr', 'str', 'repr'):
+                                pass                  # a length or a type is not the content
                             else:
                                 whole = True          # the arrow array as a whole (to_pylist, pickle, ...)
                     if isinstance(x.func, ast.Attribute) and isinstance(x.func.value, ast.Attribute) and isinstance(x.func.value.value, ast.Name) and x.func.value.value.id == a \
@@ -508,6 +510,14 @@ def array_token(P, R, rule):
                     if isinstance(x.func, ast.Attribute) and x.func.attr == 'buffers' and isinstance(x.func.value, ast.Attribute) and isinstance(x.func.value.value, ast.Name) \
                             and x.func.value.value.id == a and x.func.value.attr in ('data', '_data'):
                         raw_arrow = 'offset' not in {y.attr for e2 in exp for y in ast.walk(e2) if isinstance(y, ast.Attribute)} or raw_arrow
+        # raw buffers read anywhere in the handler (through a local alias of the arrow array too)
+        for x in walk_own(g_.node):
+            if isinstance(x, ast.Call) and isinstance(x.func, ast.Attribute) and x.func.attr == 'buffers':
+                recv = astq.trace(g_, x.func.value) if isinstance(x.func.value, ast.Name) else x.func.value
+                if isinstance(recv, ast.Attribute) and recv.attr in ('data', '_data') and isinstance(recv.value, ast.Name) and recv.value.id == a:
+                    uses_offset = any(isinstance(y, ast.Attribute) and y.attr == 'offset' for y in ast.walk(g_.node))
+                    if not uses_offset:
+                        raw_arrow = True
         has_dtype = bool(attrs & {'dtype', 'numpy_dtype', '_dtype', '_numpy_dtype'}) or any('.data.type' in norm(e_) for e_ in exp)
         R.check(bool(rets) and has_dtype, rule, g_, rets[0] if rets else None, f'the token of a {ci.name} includes its dtype (coordinate subtype)',
                 f'the token {g_.name} computes for a {ci.name} does not include the dtype: arrays with equal numbers and different coordinate subtypes get one token',
